@@ -266,6 +266,25 @@ func HeaderOf(h *diam.Header) refcodec.Header {
 		App: h.ApplicationID, HopByHop: h.HopByHopID, EndToEnd: h.EndToEndID}
 }
 
+// topDown builds the AVP for n the way an application does that creates the
+// outer objects first and fills nested groups afterwards: the AVP is created
+// around a still empty group (which sizes it), members are added to the group
+// one by one with AddAVP, nested groups again top-down.
+func topDown(n *refcodec.Node) *diam.AVP {
+	if n.Kind != refcodec.Grouped {
+		return diam.NewAVP(n.Code, n.Flags, n.Vendor, FromNode(n))
+	}
+	g := &diam.GroupedAVP{}
+	a := diam.NewAVP(n.Code, n.Flags, n.Vendor, g)
+	_ = a.Len()
+	_ = a.String()
+	for _, k := range n.Kids {
+		g.AddAVP(topDown(k))
+		_ = a.Len() // an application may well look at the size in between
+	}
+	return a
+}
+
 // Build assembles a library message through the public API: NewMessage, then
 // the identifiers set on the public Header (NewMessage replaces 0 by random
 // values), then the AVPs with NewAVP / AddAVP / InsertAVP chosen by mode.
@@ -273,7 +292,12 @@ func Build(p *dict.Parser, m *gen.Msg, mode int) *diam.Message {
 	dm := diam.NewMessage(m.H.Code, m.H.Flags, m.H.App, m.H.HopByHop, m.H.EndToEnd, p)
 	dm.Header.HopByHopID = m.H.HopByHop
 	dm.Header.EndToEndID = m.H.EndToEnd
-	switch mode % 3 {
+	switch mode % 4 {
+	case 3:
+		// groups assembled top-down, then added to the message
+		for _, n := range m.Nodes {
+			dm.AddAVP(topDown(n))
+		}
 	case 0:
 		for _, n := range m.Nodes {
 			dm.NewAVP(n.Code, n.Flags, n.Vendor, FromNode(n))
